@@ -762,7 +762,7 @@ fn explore_subject(run: &mut Run, tier: Tier, id: &str, deadline: Instant, part:
     let b1_ran = do_batch(run, "bound 1", part == Part::Main, b1, &mut seen, &mut capped);
     // every choice point of the circuit (at 1 thread, and at 4 threads those
     // that exist only there) has been deviated with every applicable policy
-    let bound1_exhaustive = (full1 || part == Part::Rest1) && b1_ran == b1_total;
+    let bound1_exhaustive = (full1 || part == Part::Rest1) && part != Part::Bound2 && b1_ran == b1_total;
     if !bound1_exhaustive && part != Part::Bound2 && !(part == Part::Main && tier == Tier::Thorough && id == "g9") {
         run.exhaustive = false;
     }
